@@ -1,6 +1,7 @@
 import HopModel.Driver.C14
 import HopModel.Driver.C20
 import HopModel.Driver.C08
+import HopModel.Driver.Mux
 
 def main (args : List String) : IO UInt32 := do
   match args with
@@ -8,6 +9,8 @@ def main (args : List String) : IO UInt32 := do
   | "C20" :: rest => Driver.C20.main rest; return 0
   | "C08" :: rest => Driver.C08.main rest; return 0
   | "C08sys" :: rest => Driver.C08.mainSys rest; return 0
+  | "C09" :: rest => Driver.Mux.main rest; return 0
+  | "C11" :: rest => Driver.Mux.main rest; return 0
   | _ =>
     IO.eprintln "usage: hopmodel <Cxx> [--spec] < ops.txt > model.txt"
     return 2
